@@ -158,9 +158,17 @@ type fillCtx struct {
 	sch *crypto.Scheme
 }
 
+// zero is a legitimate, generator-chosen value for these (node index 0 exists; indices must stay distinct)
+var keepZeroSuffix = []string{".Index"}
+
 // fillZero gives every zero-valued exported field under v a non-zero value of its kind (v must be addressable).
 func (c *fillCtx) fillZero(v reflect.Value, path string) {
 	t := v.Type()
+	for _, suf := range keepZeroSuffix {
+		if strings.HasSuffix(path, suf) {
+			return
+		}
+	}
 	switch t {
 	case pointT:
 		if v.IsNil() {
@@ -647,8 +655,11 @@ func codecEngine(args []string, in *bufio.Scanner, out *bufio.Writer) {
 				case 1:
 					g.ID = "default"
 				}
-				if r.below(3) == 0 {
+				switch r.below(4) {
+				case 0:
 					g.CatchupPeriod = 0
+				case 1:
+					g.CatchupPeriod += 500 * time.Millisecond // survives TOML, truncated to whole seconds on the wire
 				}
 				if r.below(4) == 0 {
 					g.Nodes[r.below(len(g.Nodes))].Identity.Signature = nil
